@@ -4,6 +4,8 @@
 //!   {NF EZ TD HD HR DT RX HT NC-bit FL SO AP} × key mods in every spelling vs. the Lean model
 //!   (`MODS`), iteration order (`ORD`), lazer rate / DifficultyAdjust payloads (`LAZER`),
 //!   `Difficulty::get_clock_rate` (`GCR`);
+//! * second wave (`c08_settings.rs`): lazer mods with explicit settings (`LZS`), intermode sets by
+//!   acronym owned/borrowed (`IMS`), end-to-end oracles for every stated setting equivalence;
 //! * oracle: snapshots agree across spellings; difficulty, strains and performance are
 //!   bit-identical (Debug strings) across the five spellings; `mods(rate mod r)` ≡ `clock_rate(r)`;
 //!   DifficultyAdjust value ≡ `Difficulty::{ar,cs,hp,od}(value, false)`.
@@ -32,6 +34,9 @@ use crate::{
     mapgen::{random_map, GenCfg},
     rng::Rng,
 };
+
+#[path = "c08_settings.rs"]
+pub mod settings;
 
 pub const BASE_BITS: [u32; 12] = [0, 1, 2, 3, 4, 6, 7, 8, 9, 10, 12, 13];
 /// 1K 2K 3K 4K 5K 6K 7K 8K 9K
@@ -428,11 +433,16 @@ fn perf_of(d: &Difficulty, map: &Beatmap, mode: GameMode, sc: &ScoreSpec, via_mo
 
 /// difficulty + strains + performances + builder output, as one comparable string
 fn results(d: &Difficulty, m: &E2eMap, via_mods: Option<&GameMods>) -> Result<String, String> {
+    results_n(d, m, via_mods, SCORES.len())
+}
+
+/// `results` with the first `n_specs` score specifications only (the third one forces `lazer(false)`)
+fn results_n(d: &Difficulty, m: &E2eMap, via_mods: Option<&GameMods>, n_specs: usize) -> Result<String, String> {
     let mode = mode_of(m.mode);
     let mut out = String::new();
     let a = one_shot(d, &m.map, mode)?;
     let _ = write!(out, "D {a:?}\nS {:x}\n", crate::common::hash64(&strains_of(d, &m.map, mode)?));
-    for sc in &SCORES {
+    for sc in SCORES.iter().take(n_specs) {
         let _ = writeln!(out, "P {}", perf_of(d, &m.map, mode, sc, via_mods)?);
     }
     let b = guarded(|| m.map.attributes().difficulty(d).build()).map_err(|p| format!("panic:{p}"))?;
@@ -682,6 +692,10 @@ pub fn run(tier: &str, seed: u64, only: Option<&str>) -> Run {
         order_cases(&mut run, bits, only);
     }
 
+    // 1b. lazer mods with explicit settings × Difficulty setters; intermode sets by acronym
+    settings::settings_cases(&mut run, thorough, only);
+    settings::intermode_cases(&mut run, only);
+
     // 2. lazer rate mods and DifficultyAdjust
     rate_grid(&mut run, only, if thorough { &[0, 1, 2, 3] } else { &[0, 3] });
 
@@ -713,6 +727,7 @@ pub fn run(tier: &str, seed: u64, only: Option<&str>) -> Run {
     }
     e2e_rate(&mut run, &maps, &rates, only);
     da_grid(&mut run, &maps, only, thorough);
+    settings::e2e_settings(&mut run, &maps, only);
     run.sample(format!("e2e: {} maps × {} mod sets × 5 spellings × (difficulty, strains, 3 score specs, builder)", maps.len(), sets.len()));
     run
 }
